@@ -326,6 +326,36 @@ def rule_gil(fx, out):
         out.append(('R20.gil', 'gil-region:%s' % sname(f), VIOLATED if bad else HOLDS, 'after PY_IMATH_LEAVE_PYTHON the function reaches %s' % bad[1] if bad else 'no Python API use while the GIL is released', bad[0] if bad else f['loc']))
     return n
 
+def _bare(ty):
+    ty = re.sub(r'\b(const|volatile|class|struct)\b', '', ty).replace('&', '').replace(' ', '')
+    return re.sub(r'(PyImath|Imath(_\d+_\d+)?)::', '', ty)
+
+def rule_taskmembers(fx, out):
+    """R20.same (task members): a Task keeps what it was given - a member initialised from a constructor parameter has that
+    parameter's type (reference or copy), never a converted copy: a Matrix44<double> argument stored as Matrix44<float> makes
+    every element be computed in another precision than the scalar binding uses"""
+    n = 0; seen = set()
+    for f in fx.fns:
+        if not f.get('ctor') or not f.get('cls_task') or f.get('copy_ctor'): continue
+        k = (f.key, tuple(p['type'] for p in f['params']))
+        if k in seen: continue
+        seen.add(k)
+        ptypes = {p['name']: p['type'] for p in f['params']}
+        for i in f.get('inits', []):
+            src = i['text']
+            m_ = re.match(r'^%s\s*[({]\s*(\w+)\s*[)}]$' % re.escape(i['field']), src)
+            if m_: src = m_.group(1)
+            if src not in ptypes or not i.get('ftype'): continue
+            i = dict(i, text=src)
+            n += 1
+            a, b = _bare(i['ftype']), _bare(ptypes[i['text']])
+            oid = 'taskmember:%s::%s(%s)' % (f.get('cls'), i['field'], b[:60])
+            if a == b or a.rstrip('*') == b.rstrip('*'):
+                out.append(('R20.same', oid, HOLDS, 'member %s holds its argument unconverted (%s)' % (i['field'], i['ftype']), f['loc']))
+            else:
+                out.append(('R20.same', oid, VIOLATED, 'member %s of the task is a %s but is initialised from the argument %s of type %s: a converted copy - the elements are then computed from other operand values (another precision) than the scalar binding, which works on the argument itself' % (i['field'], i['ftype'], i['text'], ptypes[i['text']]), f['loc']))
+    return n
+
 def rule_shared(fx, out):
     """R20.shared: nothing reachable from a Task::execute override writes an object with static storage duration (a global,
     a static member, a function-local static): sub-ranges run concurrently on worker threads, so such a write is a data race
@@ -488,7 +518,7 @@ def rule_unmasked(fx, out):
                         'on the branch %s the task %s indexes the argument with the position in the masked view; the argument has the unmasked length, so element k must be taken at raw_ptr_index(k)' % (C, e['cls']), e['loc']))
     return n
 
-RULES = [('range', rule_range_index), ('len', rule_len), ('wr', rule_wr), ('gil', rule_gil), ('shared', rule_shared), ('ops', rule_ops), ('loops', rule_loops), ('unmasked', rule_unmasked)]
+RULES = [('range', rule_range_index), ('len', rule_len), ('wr', rule_wr), ('gil', rule_gil), ('shared', rule_shared), ('taskmembers', rule_taskmembers), ('ops', rule_ops), ('loops', rule_loops), ('unmasked', rule_unmasked)]
 
 def main(rep, ws, tier):
     repo = build.REPO
@@ -510,6 +540,7 @@ def main(rep, ws, tier):
     rep.floor('dispatchTask sites + length helpers', counts['len'], 60)
     rep.floor('vectorised apply functions', counts['wr'], 8)
     rep.floor('GIL obligations', counts['gil'], 40)
+    rep.floor('task members initialised from constructor arguments', counts['taskmembers'], 60)
     rep.floor('execute overrides and element functors checked for shared static state', counts['shared'], 100)
     rep.floor('operator functors', counts['ops'], 30)
     rep.floor('unmasked-length branches', counts['unmasked'], 2)
